@@ -783,6 +783,14 @@ def np_cumsum(it, a, axis=None, **k):
     raise Unsupported('cumsum')
 
 
+def _sort_le(a, b):
+    """numpy's sort order: real numbers by value, complex numbers lexicographically (real part, then imaginary part)"""
+    if isinstance(a, Cx) or isinstance(b, Cx):
+        a, b = V.cx(a), V.cx(b)
+        return V.or_(V.cmp('<', a.re, b.re), V.and_(V.cmp('==', a.re, b.re), V.cmp('<=', a.im, b.im)))
+    return V.cmp('<=', a, b)
+
+
 @np_fn('argsort')
 def np_argsort(it, x, **k):
     ctx = it.ctx
@@ -790,7 +798,7 @@ def np_argsort(it, x, **k):
         x = to_carr(x)
     if x.ndim != 1:
         raise Unsupported('argsort nd')
-    if isinstance(x, CArr) and not any(is_sym(v) for v in x.data.flat):
+    if isinstance(x, CArr) and not any(is_sym(v) or isinstance(v, Cx) for v in x.data.flat):
         vals = [V.exact(v) for v in x.data]
         order = sorted(range(len(vals)), key=lambda i: vals[i])
         return CArr(np.array(order, dtype=object), 'int')
@@ -804,11 +812,14 @@ def np_argsort(it, x, **k):
     nn = conc(n)
     if isinstance(nn, int):
         for k1 in range(nn - 1):
-            ctx.assume(V.cmp('<=', xl.at(perm(k1)), xl.at(perm(k1 + 1))))
+            ctx.assume(_sort_le(xl.at(perm(k1)), xl.at(perm(k1 + 1))))
         d = np.empty((nn,), dtype=object)
         for k1 in range(nn):
             d[k1] = perm(k1)
-        r = to_larr(CArr(d, 'int'))
+        if isinstance(x, CArr):
+            # concrete-shape input: the permutation is an ordinary integer array with symbolic entries (ghost facts about perm/rank stay assumed)
+            ctx.ghost_log.append(('argsort', perm, rank, xl))
+            return CArr(d, 'int')
         r = LArr((nn,), lambda i: perm(V.zint(i[0])), 'int', inv=lambda v: rank(V.zint(v)))
     else:
         k1, k2 = z3.Int(f'k1!{next(ctx.fresh_ctr)}'), z3.Int(f'k2!{next(ctx.fresh_ctr)}')
@@ -2078,3 +2089,135 @@ def la_solve(it, Am, b):
         for j in range(B.shape[1]):
             X[i, j] = V.div(R[i][j], M[i][i])
     return CArr(X.reshape(b.shape))
+
+
+# ------------------------------------------------------------------------------------------------ eigenvalue solvers (library contracts)
+# scipy.linalg.eigh(A, b=B):  real ascending W, Q with  A Q = B Q diag(W)  and  Q^H B Q = I   (A, B Hermitian, B positive definite)
+# scipy.linalg.eig(A, b=B):   complex W, Q with  A Q = B Q diag(W), every column of unit 2-norm; no order is promised
+# scipy.sparse.linalg.eigsh / eigs(A, k, M, sigma, OPinv): k pairs with A q = w M q (eigsh: real w, M-orthonormal q); OPinv must act as
+#   (A - sigma M)^-1 - the caller's operator is recorded so that the harness can check that requirement
+def _eig_common(it, A, B, n, k, cplx_w, cplx_q, tag):
+    ctx = it.ctx
+
+    def fresh(nm, cplx):
+        if cplx:
+            return Cx(ctx.fresh(nm + 'r', 'real'), ctx.fresh(nm + 'i', 'real'))
+        return ctx.fresh(nm, 'real')
+    W = np.empty((k,), dtype=object)
+    Q = np.empty((n, k), dtype=object)
+    for j in range(k):
+        W[j] = fresh(f'{tag}_w{j}', cplx_w)
+        for r in range(n):
+            Q[r, j] = fresh(f'{tag}_q{r}{j}', cplx_q)
+    Ad = A.fields['dense'].data if isinstance(A, Obj) else A.data
+    Bd = None if B is None else (B.fields['dense'].data if isinstance(B, Obj) else B.data)
+    facts = []
+    for j in range(k):
+        for r in range(n):
+            lhs = 0
+            rhs = 0
+            for c in range(n):
+                lhs = V.add(lhs, V.mul(Ad[r, c], Q[c, j]))
+                rhs = V.add(rhs, V.mul(Bd[r, c], Q[c, j]) if Bd is not None else (Q[c, j] if c == r else 0))
+            rhs = V.mul(W[j], rhs)
+            f = V.eq_formula(lhs, rhs)
+            ctx.assume(f)
+            facts.append(((r, j), f))
+    it.trace.append(('eig_result', dict(solver=tag, W=W.copy(), Q=Q.copy(), equation_facts=facts, A=A, B=B)))
+    return W, Q, Ad, Bd
+
+
+def _kind_of_mat(M):
+    if M is None:
+        return 'real'
+    return (M.fields['dense'] if isinstance(M, Obj) else M).kind
+
+
+@np_fn('eigh', ns='spla')
+def spla_eigh(it, A, b=None, **k):
+    if not isinstance(A, CArr) or (b is not None and not isinstance(b, CArr)):
+        raise Unsupported('eigh on a non-concrete-shape matrix')
+    n = A.shape[0]
+    cplx = 'complex' in (_kind_of_mat(A), _kind_of_mat(b))
+    W, Q, Ad, Bd = _eig_common(it, A, b, n, n, False, cplx, 'eigh')
+    ctx = it.ctx
+    for j in range(n - 1):
+        ctx.assume(V.cmp('<=', W[j], W[j + 1]))
+    for i in range(n):
+        for j in range(n):
+            tot = 0
+            for r in range(n):
+                for c in range(n):
+                    bij = Bd[r, c] if Bd is not None else (1 if r == c else 0)
+                    tot = V.add(tot, V.mul(V.mul(V.conj(Q[r, i]), bij), Q[c, j]))
+            f = V.eq_formula(tot, 1 if i == j else 0)
+            ctx.assume(f)
+            it.trace[-1][1].setdefault('orthonormal_facts', []).append(((i, j), f))
+    return (CArr(W, 'real'), CArr(Q, 'complex' if cplx else 'real'))
+
+
+@np_fn('eig', ns='spla')
+def spla_eig(it, A, b=None, **k):
+    if not isinstance(A, CArr) or (b is not None and not isinstance(b, CArr)):
+        raise Unsupported('eig on a non-concrete-shape matrix')
+    n = A.shape[0]
+    W, Q, Ad, Bd = _eig_common(it, A, b, n, n, True, True, 'eig')
+    for j in range(n):
+        tot = 0
+        for r in range(n):
+            tot = V.add(tot, V.real_part(V.mul(V.conj(Q[r, j]), Q[r, j])))
+        it.ctx.assume(V.cmp('==', tot, 1))
+    return (CArr(W, 'complex'), CArr(Q, 'complex'))
+
+
+@np_fn('LinearOperator', ns='spsla')
+def spsla_linop(it, shape, matvec=None, rmatvec=None, **k):
+    return Obj(None, {'shape': tuple(shape), 'matvec': matvec, 'rmatvec': rmatvec}, tag='linop')
+
+
+def _sparse_eig(fname):
+    def f(it, A, k=6, M=None, sigma=None, which='LM', OPinv=None, mode='normal', **kw):
+        if not (isinstance(A, Obj) and A.tag == 'sparse'):
+            raise Unsupported(fname + ' on a non-sparse matrix')
+        n = A.fields['dense'].shape[0]
+        k = conc(k)
+        if not isinstance(k, int):
+            raise Unsupported('symbolic number of modes')
+        call = dict(A=A, M=M, k=k, sigma=sigma, OPinv=OPinv, mode=mode, which=which,
+                    A_entries=A.fields['dense'].data.copy(), M_entries=None if M is None else M.fields['dense'].data.copy())
+        it.trace.append((fname, call))
+        if k >= n - (0 if fname == 'eigsh' else 1) or k <= 0:
+            raise PyExc('TypeError' if k > 0 else 'ValueError', 'ARPACK: k must satisfy 0 < k < N (eigsh) / 0 < k < N-1 (eigs)')
+        cplx = 'complex' in (_kind_of_mat(A), _kind_of_mat(M))
+        herm = fname == 'eigsh'
+        W, Q, Ad, Bd = _eig_common(it, A, M, n, k, not herm, cplx or not herm, fname)
+        if herm:
+            for i in range(k):
+                for j in range(k):
+                    tot = 0
+                    for r in range(n):
+                        for c in range(n):
+                            bij = Bd[r, c] if Bd is not None else (1 if r == c else 0)
+                            tot = V.add(tot, V.mul(V.mul(V.conj(Q[r, i]), bij), Q[c, j]))
+                    fct = V.eq_formula(tot, 1 if i == j else 0)
+                    it.ctx.assume(fct)
+                    it.trace[-1][1].setdefault('orthonormal_facts', []).append(((i, j), fct))
+        return (CArr(W, 'real' if herm else 'complex'), CArr(Q, 'complex' if (cplx or not herm) else 'real'))
+    return f
+
+
+@np_fn('eye', 'identity', ns='sps')
+def sps_eye(it, n, m=None, **k):
+    n = conc(n)
+    m = n if m is None else conc(m)
+    if not (isinstance(n, int) and isinstance(m, int)):
+        raise Unsupported('sparse identity of symbolic size')
+    d = np.empty((n, m), dtype=object)
+    for i in range(n):
+        for j in range(m):
+            d[i, j] = Fraction(1) if i == j else Fraction(0)
+    return _mk_sparse(CArr(d, 'real'), 'dia')
+
+
+NP[('spsla', 'eigsh')] = _sparse_eig('eigsh')
+NP[('spsla', 'eigs')] = _sparse_eig('eigs')
